@@ -64,7 +64,8 @@ OnlyValidLexemes == chk # <<>> => /\ Utf8Valid(chk)
                                   /\ NoLexicalError("delta", chk)
                                   /\ NoLexicalError("alpha", chk)
 \* the requested size: the loop ends when 100 * len >= 95 * capacity and `penne fuzz` asks for kb * 1096 bytes
-SizeArithmetic == \A kb \in 1..64 : \A len \in {(95 * kb * 1096) \div 100, (95 * kb * 1096) \div 100 + 1} :
+\* (dimension audit: also the sizes beyond 64 KB that the check requests; 95 * 2048 * 1096 still fits TLC's integers)
+SizeArithmetic == \A kb \in (1..64) \cup {65, 100, 128, 130, 200, 256, 300, 512, 1024, 2048} : \A len \in {(95 * kb * 1096) \div 100, (95 * kb * 1096) \div 100 + 1} :
                       (100 * len >= 95 * kb * 1096) => len >= 1024 * kb
 
 (* ---- which (kind, gap, kind) adjacencies can the generator produce?  (binding of A to the code: the ----
